@@ -1,12 +1,108 @@
 /-
-  C02 — an 'invalid' verdict comes with a genuine countermodel.   (theorems: work in progress below)
+  C02 — an 'invalid' verdict comes with a genuine countermodel.
+
+  FULL STATEMENT: whenever a completed tableau reports its argument invalid, every open branch not
+  cut short by a limit flag yields, through the library's own model builder, an interpretation that
+  satisfies every node on that branch; consequently it designates every premise and not the
+  conclusion; and 'completed' means saturated.
+
+  PROVED HERE (the Hintikka lemma for the calculus model, Ptx/Proofs/Hintikka.lean), for every logic
+  whose regenerated tables pass the kernel-evaluated side conditions `hintikkaCoreB` (backward half
+  of rule exactness for operator and modal rules, rules total, closure total and exact on open
+  sets, read table satisfying, frame rules sufficient for the frame class) and `measureOKOnB
+  notQuant` (per-logic node weights), for every SATURATED branch (`saturatedB`, the decidable
+  predicate the driver evaluates on the real final branches) whose sentences are ground
+  (`groundB`: no quantifier the logic interprets, no Identity/Existence; what the logic leaves
+  uninterpreted is a literal):
+    * `C02_saturated_branch_model` — the canonical structure of the branch (worlds = labels,
+      access = access nodes, letters / predications / uninterpreted sentences valued by the READ
+      TABLE on the literal constraints present, unassigned otherwise) is an interpretation of the
+      logic (frame condition included) and satisfies EVERY node of the branch at its world;
+    * `C02_countermodel` — for every tableau reachable from the trunk by ANY legal derivation,
+      such a branch makes that structure a countermodel of the argument: every premise
+      designated, the conclusion not.
+  `_partial`: first-order branches (quantifier and identity rules) are not covered by the theorem
+  yet; and the canonical structure is the SPECIFICATION of what the library's model builder
+  produces — that `branch.model` evaluates like it is C08's theorem (`C08_eval_is_spec`) plus the
+  runtime comparison: on every run of the sweep the library model is asked for the value of every
+  node of every open limit-free branch, and `is_countermodel_to` must agree.
 -/
-import Ptx.Tab.Saturated
+import Ptx.Proofs.Hintikka
+import Ptx.Proofs.Measure
+import Ptx.Proofs.Grow
 namespace Ptx.Props.C02
 open Ptx
 
-/-- non-vacuity of the saturation predicate: a branch carrying only an atom is saturated for a logic
-    without rules, and a closed-looking pair is reported when the closure table says so -/
-example : (default : LogicData).saturatedB { nodes := [.sent (.atom 0 0) none none] } = true := by decide
+/-- the per-logic weights give the measure the induction runs on -/
+theorem measureOK_of_weights {L : LogicData} {W : Weights}
+    (h : L.measureOKOnB RuleKey.notQuant W = true) : Canon.MeasureOK L W.node := by
+  intro s d r whole l0 hrf hnq w c wo gs hgs g hgm s' d' w' hn
+  refine weight_decreases_frag h hrf ?_ w c wo hgs hgm hn
+  intro sh ng hdec
+  have hsp := decomp_shape hdec
+  cases sh with
+  | quant q => exact absurd hsp (hnq q)
+  | op1 o => rfl
+  | op2 o => rfl
+
+/-- Hintikka: a saturated ground branch is satisfied, node by node, by its canonical structure,
+    which is an interpretation of the logic. -/
+theorem C02_saturated_branch_model_partial (L : LogicData) (W : Weights)
+    (hcore : L.hintikkaCoreB = true) (hW : L.measureOKOnB RuleKey.notQuant W = true)
+    (hT : L.T.vals.contains .T = true) (hF : L.T.vals.contains .F = true)
+    (b : Branch) (hsat : L.saturatedB b = true) (hg : b.groundB L = true) :
+    (Canon.struct L b).Interp L ∧
+    ∀ n ∈ b.nodes, satNode L (Canon.struct L b) Canon.env id n :=
+  Canon.hintikka W.node (measureOK_of_weights hW) hcore (by simpa using hT) (by simpa using hF)
+    (by simpa [LogicData.saturatedB] using hsat) hg
+
+/-- The countermodel: on every tableau reachable from the trunk by any legal derivation, a
+    saturated ground branch makes its canonical structure a countermodel of the argument. -/
+theorem C02_countermodel_partial (L : LogicData) (W : Weights)
+    (hcore : L.hintikkaCoreB = true) (hW : L.measureOKOnB RuleKey.notQuant W = true)
+    (hT : L.T.vals.contains .T = true) (hF : L.T.vals.contains .F = true) (htb : L.trunkBackB = true)
+    (arg : Argument) (t : Tableau) (hd : Deriv L (trunk L arg) t)
+    (b : Branch) (hb : b ∈ t) (hsat : L.saturatedB b = true) (hg : b.groundB L = true) :
+    (Canon.struct L b).Interp L ∧ Countermodel L (Canon.struct L b) Canon.env (0 : Nat) arg := by
+  obtain ⟨hM, hall⟩ := C02_saturated_branch_model_partial L W hcore hW hT hF b hsat hg
+  refine ⟨hM, ?_⟩
+  have htn := deriv_trunk_nodes (L := L) (L' := L) hd b hb
+  have hTot : L.tablesTotalB = true := by
+    simp only [LogicData.hintikkaCoreB, Bool.and_eq_true] at hcore
+    exact hcore.1.1.1.1.1.1.1.1.1
+  simp only [LogicData.trunkBackB, Bool.and_eq_true, bne_iff_ne, ne_eq] at htb
+  obtain ⟨hprem, hconc⟩ := htb
+  have hw0 : ∀ wv : Option Nat, wv = (if L.modal then some 0 else none) → wv.getD 0 = 0 := by
+    intro wv h; subst h; split <;> rfl
+  refine ⟨fun p hp => ?_, ?_⟩
+  · have hn : Node.sent p L.trunkPrem (if L.modal then some 0 else none) ∈ b.nodes := by
+      apply htn
+      simp only [trunkNodes, List.mem_append, List.mem_map, List.mem_singleton]
+      exact Or.inl ⟨p, hp, rfl⟩
+    have := hall _ hn
+    simp only [satNode, hw0 _ rfl, id] at this
+    rwa [satV_not_false hprem] at this
+  · have hn : Node.sent (if L.trunkConcNeg then arg.conclusion.neg else arg.conclusion) L.trunkConc
+        (if L.modal then some 0 else none) ∈ b.nodes := by
+      apply htn
+      simp [trunkNodes]
+    have := hall _ hn
+    simp only [satNode, hw0 _ rfl, id] at this
+    by_cases hneg : L.trunkConcNeg = true
+    · simp only [hneg, ↓reduceIte, Bool.and_eq_true, bne_iff_ne, ne_eq, List.all_eq_true, Bool.not_eq_true',
+        Bool.and_eq_false_iff] at hconc this
+      rw [satV_not_false hconc.1, eval_neg] at this
+      have hv := eval_mem_vals L hTot _ hM arg.conclusion Canon.env (0 : Nat)
+      rcases hconc.2 _ hv with h | h
+      · exact h
+      · rw [h] at this; cases this
+    · simp only [hneg, Bool.false_eq_true, ↓reduceIte, beq_iff_eq] at hconc this
+      rw [hconc] at this
+      simpa [LogicData.satV] using this
+
+/-- non-vacuity: for a logic without rules a branch carrying one sentence letter is saturated and ground -/
+example : (default : LogicData).saturatedB { nodes := [.sent (.atom 0 0) none none] } = true ∧
+    (({ nodes := [.sent (.atom 0 0) none none] } : Branch).groundB
+      { (default : LogicData) with marks := false }) = true := by decide
 
 end Ptx.Props.C02
